@@ -102,6 +102,16 @@ pub fn run(op: &str, a: &[&str]) -> Option<Out> {
     Some(match op {
         // verify <layout> <sec> <proof tokens>
         "verify" => verify_layout(a[0], &parse_proof(&a[2..]), felt(a[1])),
+        // verify_seq <layout> <sec> <proof A tokens> <proof B tokens>: verify A, give the SAME object every field of B, verify again.
+        // The answer must be verify(B): the verdict is a function of the proof VALUE (no state survives a verification or an edit)
+        "verify_seq" => {
+            let mut p = parse_proof(&a[2..2 + PROOF_TOKENS]);
+            let _ = verify_layout(a[0], &p, felt(a[1]));
+            let q = parse_proof(&a[2 + PROOF_TOKENS..]);
+            p.config = q.config; crate::ops_full::assign_pi(&mut p.public_input, q.public_input);
+            p.unsent_commitment = q.unsent_commitment; p.witness = q.witness;
+            verify_layout(a[0], &p, felt(a[1]))
+        }
         // challenges <layout> <proof tokens> -> seed, interaction elements (sorted), oods point, oods alpha, fri eval points, queries
         "challenges" => challenges_layout(a[0], &parse_proof(&a[1..])),
         // fixture_proof -> proof tokens
